@@ -217,6 +217,7 @@ type Engine struct {
 	strLitFacts map[string][]*Term
 	nextConstObj int64
 	initGS *globalState
+	named  map[string]*Term // let-names for large ground spec-function results
 }
 
 func NewEngine(prog *ssa.Program, fset *token.FileSet) *Engine {
